@@ -55,6 +55,10 @@ def run(facts, tier):
     obs += o
     rules.append({"rule": "narrow image arithmetic", "instances": len(o), "min": 1,
                   "text": "no 32-bit image field is shifted / multiplied in 32 bits and only then widened to 64 bits in a reader (valid large images would come back with a wrapped capacity)"})
+    o = derived.rest_state(facts)
+    obs += o
+    rules.append({"rule": "rest state", "instances": len(o), "min": 4,
+                  "text": "state an image does not carry (VarOpt's transient M region, the all-slots-constructed flag) is restored to the value a live object has at rest"})
     o = derived.obligations(facts)
     obs += o
     rules.append({"rule": "derived fields", "instances": len(o), "min": 18,
